@@ -17,6 +17,15 @@ brute-force reading of the raster): excluded cells are nodata, no link enters an
 downstream cell is excluded is a pit), idxs_pit = the self-draining cells; all exports + re-parses must reproduce
 it and the export to the source format is the canonical form (Lean) of the raster with the excluded cells set to
 nodata.
+
+Decoded sources are also parsed the way most callers do: with the default ftype="infer". The documented reading is
+the first of d8, ldd, nextxy whose container / value set the raster satisfies (C01), so a raster whose code set is
+legal in more than one format (uint8 rasters over {1, 2, 4, 8, 255}: D8 E/SE/S/SW + secondary pit code, LDD SW/S/W/N +
+nodata) is a D8 raster. Such sources are generated on purpose (uniform over the shared codes, D8 hillslopes draining
+east / south with off-grid outlets and 255 pits, LDD rasters over the shared codes; mostly small shapes, where they
+also arise by chance) next to sources that are legal in one format only. The inferred parse must report that format,
+hold the network of the harness' own brute-force reading of the raster in that format and of the parse with the format
+given explicitly, and all exports / re-parses / the canonical export to that format are judged as for explicit parses.
 """
 import numpy as np
 from common import canon_idx, ints, exc_class, gen_shape, gen_raster_net, ds_to_np
@@ -32,6 +41,10 @@ RULE = ("source networks: decoded legal rasters of D8 / LDD / NEXTXY (uniform, f
         "cell of small shapes for the canonicalisation; remap on random legal arrays and the full alphabets; "
         "decoded sources also parsed with a user mask= that cuts flow paths (window, upstream part of a basin with / "
         "without its exit cell, complement of such a part, random, all-but-one-cell, full; 2-D bool / uint8 / int64). "
+        "decoded sources also parsed with the default ftype='infer' (judged by the documented order d8, ldd, nextxy: "
+        "reported format, harness' own reading, explicit parse, canonical export), including sources whose code set is "
+        "legal as D8 and LDD (uniform over {1,2,4,8,255}, directions only, D8 hillslopes to the east / south with off-grid "
+        "outlets and 255 pits; d8- and ldd-labelled; small shapes). "
         "non-trivial = >= 2 valid cells, >= 1 non-pit link and (valid border cell or nodata neighbour or pit variant)")
 FMTS = ["d8", "ldd", "nextxy"]
 DTYPES = {"int32": np.int32, "int64": np.int64, "uint32": np.uint32, "uint64": np.uint64}
@@ -157,6 +170,38 @@ def rand_cut_mask(rng, desc, ctx):
     ctx.count("mask:dtype:" + desc["mask_dtype"])
 
 
+SHARED_CODES = sorted(set(ALPHA["d8"]) & set(ALPHA["ldd"]))      # legal in both uint8 formats
+
+
+def legal_formats(desc):
+    """harness' own reading of the value sets: the formats (in the documented order of inference) whose container and
+    value set the source raster satisfies. NEXTXY sources are int32 (2, nrow, ncol) containers: never D8 / LDD."""
+    if desc["fmt"] == "nextxy":
+        return ["nextxy"]
+    return [f for f in ("d8", "ldd") if all(v in ALPHA[f] for v in desc["codes"])]
+
+
+def shared_codes_raster(rng, shape, style):
+    """uint8 rasters whose code set is legal as D8 and as LDD"""
+    r, c = shape
+    n = r * c
+    if style == "uniform":
+        return [rng.choice(SHARED_CODES) for _ in range(n)]
+    if style == "directions":        # no 255 at all: as D8 every outlet leaves the raster, as LDD there is no nodata
+        return [rng.choice([1, 2, 4, 8]) for _ in range(n)]
+    # D8 hillslope draining east / south-east / south / south-west: links stay inside the raster except at a few
+    # outlets (pointer off the raster or the pit code 255)
+    out = []
+    for i in range(n):
+        ri, ci = divmod(i, c)
+        inside = [v for v, (dr, dc) in ((1, (0, 1)), (2, (1, 1)), (4, (1, 0)), (8, (1, -1)))
+                  if 0 <= ri + dr < r and 0 <= ci + dc < c]
+        u = rng.random()
+        out.append(255 if (u < 0.08 or not inside) and rng.random() < 0.7 else
+                   rng.choice(inside) if inside and u < 0.95 else rng.choice([1, 2, 4, 8]))
+    return out
+
+
 def export_all(ctx, flw, shape):
     """run the implementation: export to every format, re-parse; returns per-format observation"""
     from pyflwdir import pyflwdir as pf
@@ -244,9 +289,26 @@ def run_convert(ctx, desc):
     from pyflwdir import pyflwdir as pf
     shape = tuple(desc["shape"])
     n = shape[0] * shape[1]
+    desc_in = desc          # the case as generated (the replay); below `desc` is the raster in the format it is read in
     src = desc["fmt"]
     data = build_data({**desc, "form": "array"})
     kw, tg, exp_ds, cuts = {}, None, None, False
+    infer = desc.get("ft") == "infer"
+    legal = legal_formats(desc)
+    if infer:
+        # parsed with the default ftype="infer": the raster is, by the documented order, a raster of the first format
+        # whose value set it satisfies - from here on that is the source format (reading, canonical form)
+        fkw = {}
+        src = legal[0]
+        ctx.count(f"feature:parsed-by-inference:{desc['fmt']}-source:" +
+                  ("code set legal as " + " and ".join(legal) if len(legal) > 1 else "legal in one format only"))
+        if src != desc["fmt"]:
+            ctx.count(f"feature:parsed-by-inference:{desc['fmt']}-source-is-a-{src}-raster-by-the-documented-order")
+        desc = {**desc, "fmt": src}
+    else:
+        fkw = {"ftype": src}
+        if len(legal) > 1:
+            ctx.count("feature:explicit-ftype:code set legal as " + " and ".join(legal))
     if desc.get("mask") is not None:
         # documented user mask (2-D, True / non-zero = valid cell); the parsed network is the raster's network
         # restricted to the kept cells
@@ -257,18 +319,28 @@ def run_convert(ctx, desc):
                    for i, t in enumerate(tg))
         ctx.count("mask:cuts-a-flow-path" if cuts else "mask:cuts-nothing")
     try:
-        flw = pf.from_array(data, ftype=src, **kw)
+        flw = pf.from_array(data, **fkw, **kw)
     except ValueError as e:
+        if infer:
+            # the only documented rejections are the ones of the explicit parse (no pit / size <= 1)
+            try:
+                pf.from_array(data, ftype=src, **kw)
+                ctx.evaluations += 1
+                ctx.fail(desc_in, "spec", f"from_array(ftype='infer') raised {exc_class(e)} on a legal {src} raster that "
+                         f"from_array(ftype='{src}') accepts: {e!r}"[:220])
+                return
+            except ValueError:
+                pass
         if exp_ds is not None and n > 1 and any(exp_ds[i] == i for i in range(n)):
             ctx.evaluations += 1
-            ctx.fail(desc, "spec", f"from_array(mask=) of a legal {src} raster whose kept part has a pit raised "
+            ctx.fail(desc_in, "spec", f"from_array(mask=) of a legal {src} raster whose kept part has a pit raised "
                      f"{exc_class(e)}: {e!r}"[:220])
             return
         ctx.count("source-rejected(no pit / size<=1)")
         return
     except Exception as e:  # noqa: BLE001
         ctx.evaluations += 1
-        ctx.fail(desc, "spec", f"from_array of a legal {src} raster raised {exc_class(e)}: {e!r}"[:200])
+        ctx.fail(desc_in, "spec", f"from_array of a legal {src} raster raised {exc_class(e)}: {e!r}"[:200])
         return
     ds = canon_idx(flw.idxs_ds, n)
     pits = sorted(canon_idx(flw.idxs_pit, n))
@@ -288,6 +360,25 @@ def run_convert(ctx, desc):
         if pits != [i for i in range(n) if ds[i] == i]:
             pre.append({"kind": "spec", "what": "idxs_pit of the network parsed with mask= are not its self-draining "
                         "cells", "impl": pits, "expected": [i for i in range(n) if ds[i] == i]})
+    if infer:
+        own = exp_ds if exp_ds is not None else restricted_graph(raw_targets(desc), [1] * n)
+        if flw.ftype != src:
+            pre.append({"kind": "spec", "what": f"from_array(ftype='infer') reads a raster that satisfies the value set(s) of "
+                        f"{' and '.join(legal)} as {flw.ftype}; documented: the first of d8, ldd, nextxy it satisfies",
+                        "impl": flw.ftype, "expected": src})
+        if ds != own:
+            pre.append({"kind": "spec", "what": f"network parsed with ftype='infer' is not the network of the raster read as {src} "
+                        f"(harness' own reading" + (", restricted to the kept cells)" if exp_ds is not None else ")"),
+                        "impl": ds, "expected": own})
+        try:
+            fx = pf.from_array(data, ftype=src, **kw)
+            gx = (canon_idx(fx.idxs_ds, n), sorted(canon_idx(fx.idxs_pit, n)))
+            if gx != (ds, pits):
+                pre.append({"kind": "spec", "what": f"parsing with ftype='infer' and with ftype='{src}' give different networks",
+                            "impl": [ds, pits], "expected": list(gx)})
+        except Exception as e:  # noqa: BLE001
+            pre.append({"kind": "spec", "what": f"from_array(ftype='{src}') raised {exc_class(e)} on a raster that from_array("
+                        f"ftype='infer') parses as {flw.ftype}"})
     from common import aged
     # the exported object may have answered other queries before (loop-safe ones: sources may contain loops)
     flw = aged(flw, p=0.45, loopfree=False)
@@ -324,7 +415,7 @@ def run_convert(ctx, desc):
         return fs
 
     variant = (src == "d8" and 255 in desc["codes"]) or (src == "nextxy" and -10 in desc["xs"])
-    ctx.add(desc, reqs, judge, nontrivial=nontrivial_ds(ds, shape, variant) and (exp_ds is None or cuts))
+    ctx.add(desc_in, reqs, judge, nontrivial=nontrivial_ds(ds, shape, variant) and (exp_ds is None or cuts))
 
 
 def run_export(ctx, desc):
@@ -436,6 +527,26 @@ def run(ctx):
             dm = dict(d)
             rand_cut_mask(rng, dm, ctx)
             dispatch(ctx, dm)
+        if rng.random() < (0.5 if len(legal_formats(d)) > 1 else 0.05):
+            dispatch(ctx, dict(d, ft="infer"))       # the same source parsed with the default ftype="infer"
+        if len(ctx.cases) > 300:
+            ctx.flush()
+
+    # 2b. sources whose code set is legal in more than one format (small shapes first: there they also arise by
+    # chance), parsed with the default ftype="infer", with an explicit ftype, and under a user mask
+    small = [(1, 1), (1, 2), (2, 1), (1, 3), (3, 1), (2, 2), (2, 3), (3, 2), (3, 3), (1, 4), (4, 1)]
+    for k in range((60 if quick else 400) * ctx.escalate):
+        shape = rng.choice(small) if rng.random() < 0.5 else gen_shape(rng, max_cells=30, max_side=7)
+        style = rng.choice(["uniform", "directions", "hillslope", "hillslope"])
+        fmt = rng.choice(["d8", "d8", "ldd"])
+        desc = {"op": "convert", "fmt": fmt, "shape": list(shape), "codes": shared_codes_raster(rng, shape, style)}
+        ctx.count(f"convert:{fmt}:shared-codes:{style}")
+        u = rng.random()
+        if u < 0.7:
+            desc["ft"] = "infer"
+        if rng.random() < 0.25:
+            rand_cut_mask(rng, desc, ctx)
+        dispatch(ctx, desc)
         if len(ctx.cases) > 300:
             ctx.flush()
 
@@ -460,7 +571,11 @@ def run(ctx):
             if rng.random() < 0.45:   # the same source once more, parsed under a user mask (extra case)
                 dm = dict(desc)
                 rand_cut_mask(rng, dm, ctx)
+                if rng.random() < 0.2:
+                    dm["ft"] = "infer"
                 dispatch(ctx, dm)
+            if rng.random() < (0.6 if len(legal_formats(desc)) > 1 else 0.2):
+                dispatch(ctx, dict(desc, ft="infer"))   # ... and with the default ftype="infer" (extra case)
         elif u < 0.80:    # arbitrary idxs_ds, chosen dtype
             ds, shape, fam = gen_raster_net(rng, max_cells=56 if quick else 400, loopfree=False)
             desc = {"op": "export", "shape": list(shape), "ds": ds, "dtype": rng.choice(list(DTYPES)),
